@@ -25,7 +25,7 @@ func init() {
 func runC14(r *Run) {
 	poolInvalidationRules(r)
 	gab := "protocol.(chainBridge).AddAccountBlocks"
-	r.Has(gab, "recv.chain.AddAccountBlockTransaction(recv.chain.AcquireInsert(…),recv.supervisor.ApplyBlock(a0[(iter+1)])#0)", "gossiped blocks enter the pool under the fork-choice rule: every node must keep the same winner among unconfirmed competitors whatever the arrival order")
+	r.Has(gab, "recv.chain.AddAccountBlockTransaction(recv.chain.AcquireInsert(…),recv.supervisor.ApplyBlock(a0[iter])#0)", "gossiped blocks enter the pool under the fork-choice rule: every node must keep the same winner among unconfirmed competitors whatever the arrival order")
 	r.CallCount(gab, ".ForceAddAccountBlockTransaction", 0, "only blocks already chosen by a momentum producer are force-added (InsertChain), never gossip")
 	r.CacheInventory([]string{"chain", "chain/account", "chain/momentum"}, cacheTriage, "pool state is derived from the stable ledger")
 	// (1) locksets and windows
@@ -82,9 +82,9 @@ func runC14(r *Run) {
 
 	// (4) momentum content
 	fb := "chain.(*accountPool).filterBlocksToCommit"
-	r.Alias("$batch", "append(iter(make([]*nom.AccountBlock)),list(a0[(iter+1)]))")
+	r.Alias("$batch", "append(iter(make([]*nom.AccountBlock)),list(a0[iter]))")
 	r.Alias("$commit", "iter(make([]*nom.AccountBlock))")
-	r.Branch(fb, "ne(4,a0[(iter+1)].BlockType)", "a batch ends only on a block that is not a contract send: a contract's receive and its descendant sends are never split")
+	r.Branch(fb, "ne(4,a0[iter].BlockType)", "a batch ends only on a block that is not a contract send: a contract's receive and its descendant sends are never split")
 	r.Branch(fb, "lt(chain.MaxAccountBlocksInMomentum,(len($commit)+len($batch)))", "a batch is committed only while the total stays within the per-momentum limit")
 	r.Returns(fb, []string{"$commit"}, "the offered content is the committed prefix")
 	r.Returns("chain.(*accountPool).GetNewMomentumContent", []string{"recv.filterBlocksToCommit(recv.GetAllUncommittedAccountBlocks())"}, "production offers the filtered pool content")
